@@ -10,22 +10,27 @@
 
 using verif::Rng;
 
+// A default-constructed key is a placeholder (what the trees store for an exhausted player), not a key
+// any player holds: it carries a poison value, and the comparators count every call that sees one.
+static const int PLACEHOLDER_KEY = -424242;
+static uint64_t g_placeholder_compares = 0;
+
 struct Big {          // 40 bytes: selects the pointer trees in LoserTree<>
     int key;
     int pad[9];
-    Big() : key(0) { for (int& p : pad) p = 0x5a5a; }
+    Big() : key(PLACEHOLDER_KEY) { for (int& p : pad) p = 0x5a5a; }
     explicit Big(int k) : key(k) { for (int& p : pad) p = 0x5a5a; }
 };
 struct Small {        // 8 bytes: selects the copy trees
     int key;
     int tag;
-    Small() : key(0), tag(0x77) {}
+    Small() : key(PLACEHOLDER_KEY), tag(0x77) {}
     explicit Small(int k) : key(k), tag(0x77) {}
 };
 struct Str {          // heap-owning key in a copy tree (lifetime errors become ASan reports)
     std::string s;
     int key;
-    Str() : s("default-constructed-key-long-enough-for-the-heap"), key(0) {}
+    Str() : s("default-constructed-key-long-enough-for-the-heap"), key(PLACEHOLDER_KEY) {}
     explicit Str(int k) : s("key-" + std::to_string(k) + "-long-enough-to-live-on-the-heap"), key(k) {}
 };
 
@@ -36,8 +41,9 @@ VERIF_MISLEADING_EQUALITY(Small, key)
 VERIF_MISLEADING_ORDER(Str, key)
 VERIF_MISLEADING_EQUALITY(Str, key)
 
-template <typename T> struct Less { bool operator()(const T& a, const T& b) const { return a.key < b.key; } };
-template <typename T> struct Greater { bool operator()(const T& a, const T& b) const { return a.key > b.key; } };
+template <typename T> static inline void cmp_sees(const T& a, const T& b) { if (a.key == PLACEHOLDER_KEY || b.key == PLACEHOLDER_KEY) ++g_placeholder_compares; }
+template <typename T> struct Less { bool operator()(const T& a, const T& b) const { cmp_sees(a, b); return a.key < b.key; } };
+template <typename T> struct Greater { bool operator()(const T& a, const T& b) const { cmp_sees(a, b); return a.key > b.key; } };
 
 static const int SENTINEL_LESS = 1000, SENTINEL_GREATER = -1000;
 
@@ -48,20 +54,24 @@ struct Plan {
     std::vector<std::vector<int> > keys;  // per player, sorted by the order
     std::vector<unsigned> reg_order;      // order in which the players are registered with insert_start()
     bool slot_feeding = false;            // keys are handed over through one reused slot per player
+    bool second_round = false;            // played on a tree object that has already been through a complete round
     std::string str() const {
         std::string s = "k=" + std::to_string(k) + (descending ? " greater" : " less");
         if (slot_feeding) s += " slot-feeding";
+        if (second_round) s += " (second round on the same tree object: all players registered again, init() again)";
         if (!std::is_sorted(reg_order.begin(), reg_order.end())) s += " registration order " + verif::join_range(reg_order.begin(), reg_order.end());
         for (auto& v : keys) s += " [" + verif::join_range(v.begin(), v.end()) + "]";
         return s;
     }
 };
 
-static Plan make_plan(Rng& rng, bool unguarded) {
+static Plan make_plan(Rng& rng, bool unguarded, unsigned force_k = 0, int force_desc = -1) {
     Plan p;
     static const std::vector<unsigned> ks = { 1, 2, 3, 4, 5, 6, 7, 8, 9, 10, 11, 12, 13, 14, 15, 16, 17, 31, 32, 33, 64 };
     p.k = rng.chance(1, 12) ? (unsigned)rng.range(18, 70) : rng.pick(ks);
     p.descending = rng.coin();
+    if (force_k) p.k = force_k;
+    if (force_desc >= 0) p.descending = force_desc != 0;
     p.keys_reach_sentinel = unguarded && rng.chance(1, 3);
     int universe = (int)rng.pick(std::vector<int>{ 1, 2, 3, 4, 8, 100 });
     size_t maxlen = unguarded ? 14 : 12;
@@ -111,6 +121,7 @@ static void play(Tree& tree, const Plan& p, Cmp cmp, bool stable, bool unguarded
         if (live(i)) tree.insert_start(keyp(i), i, false);
         else tree.insert_start(nullptr, i, true);
     }
+    g_placeholder_compares = 0;
     tree.init();
     bool initially_exhausted = false;
     for (unsigned i = 0; i < k; ++i) initially_exhausted |= !live(i);
@@ -148,9 +159,24 @@ static void play(Tree& tree, const Plan& p, Cmp cmp, bool stable, bool unguarded
             tree.delete_min_insert(nullptr, true);
         }
     }
+    if (g_placeholder_compares) {
+        verif::fail("C09:" + vname + ":comparator-called-on-placeholder",
+                    vname + ": the comparator was called " + std::to_string(g_placeholder_compares) +
+                    " time(s) with a default-constructed placeholder key (the key of no player); " + p.str());
+        g_placeholder_compares = 0;
+        return;
+    }
     verif::cover(vname + ":k=" + (k <= 17 ? std::to_string(k) : k <= 33 ? "31-33" : "34+") +
                  (initially_exhausted ? ":init-exhausted" : "") + (p.keys_reach_sentinel ? ":keys=sentinel" : "") +
-                 (p.slot_feeding ? ":slot-feeding" : "") + (std::is_sorted(p.reg_order.begin(), p.reg_order.end()) ? "" : ":shuffled-registration"));
+                 (p.slot_feeding ? ":slot-feeding" : "") + (p.second_round ? ":second-round" : "") + (std::is_sorted(p.reg_order.begin(), p.reg_order.end()) ? "" : ":shuffled-registration"));
+}
+
+//! one round, or two rounds on the same tree object (every player is registered again and init() is
+//! called again; nothing of the first round may show through)
+template <typename Tree, typename T, typename Cmp>
+static void rounds(Tree& tree, const Plan& p, const Plan* p2, Cmp cmp, bool stable, bool unguarded, const std::string& vname) {
+    play<Tree, T>(tree, p, cmp, stable, unguarded, vname);
+    if (p2 && !verif::case_failed()) play<Tree, T>(tree, *p2, cmp, stable, unguarded, vname);
 }
 
 template <typename T>
@@ -158,44 +184,50 @@ static void all_variants(Rng& rng) {
     const char* tn = sizeof(T) == sizeof(Big) ? "Big" : sizeof(T) == sizeof(Small) ? "Small" : "Str";
     {
         Plan p = make_plan(rng, false);
+        Plan p2s = make_plan(rng, false, p.k, p.descending);
+        p2s.second_round = true;
+        const Plan* p2 = rng.chance(1, 3) ? &p2s : nullptr;
         if (verif::want_sample(2)) verif::sample(std::string("guarded ") + tn + " " + p.str());
         if (!p.descending) {
             Less<T> c;
-            { tlx::LoserTreeCopy<false, T, Less<T> > t(p.k, c); play<decltype(t), T>(t, p, c, false, false, std::string("LoserTreeCopy<unstable,") + tn + ">"); }
-            { tlx::LoserTreeCopy<true, T, Less<T> > t(p.k, c); play<decltype(t), T>(t, p, c, true, false, std::string("LoserTreeCopy<stable,") + tn + ">"); }
-            { tlx::LoserTreePointer<false, T, Less<T> > t(p.k, c); play<decltype(t), T>(t, p, c, false, false, std::string("LoserTreePointer<unstable,") + tn + ">"); }
-            { tlx::LoserTreePointer<true, T, Less<T> > t(p.k, c); play<decltype(t), T>(t, p, c, true, false, std::string("LoserTreePointer<stable,") + tn + ">"); }
-            { tlx::LoserTree<false, T, Less<T> > t(p.k, c); play<decltype(t), T>(t, p, c, false, false, std::string("LoserTree<unstable,") + tn + ">"); }
-            { tlx::LoserTree<true, T, Less<T> > t(p.k, c); play<decltype(t), T>(t, p, c, true, false, std::string("LoserTree<stable,") + tn + ">"); }
+            { tlx::LoserTreeCopy<false, T, Less<T> > t(p.k, c); rounds<decltype(t), T>(t, p, p2, c, false, false, std::string("LoserTreeCopy<unstable,") + tn + ">"); }
+            { tlx::LoserTreeCopy<true, T, Less<T> > t(p.k, c); rounds<decltype(t), T>(t, p, p2, c, true, false, std::string("LoserTreeCopy<stable,") + tn + ">"); }
+            { tlx::LoserTreePointer<false, T, Less<T> > t(p.k, c); rounds<decltype(t), T>(t, p, p2, c, false, false, std::string("LoserTreePointer<unstable,") + tn + ">"); }
+            { tlx::LoserTreePointer<true, T, Less<T> > t(p.k, c); rounds<decltype(t), T>(t, p, p2, c, true, false, std::string("LoserTreePointer<stable,") + tn + ">"); }
+            { tlx::LoserTree<false, T, Less<T> > t(p.k, c); rounds<decltype(t), T>(t, p, p2, c, false, false, std::string("LoserTree<unstable,") + tn + ">"); }
+            { tlx::LoserTree<true, T, Less<T> > t(p.k, c); rounds<decltype(t), T>(t, p, p2, c, true, false, std::string("LoserTree<stable,") + tn + ">"); }
         }
         else {
             Greater<T> c;
-            { tlx::LoserTreeCopy<false, T, Greater<T> > t(p.k, c); play<decltype(t), T>(t, p, c, false, false, std::string("LoserTreeCopy<unstable,") + tn + ">"); }
-            { tlx::LoserTreeCopy<true, T, Greater<T> > t(p.k, c); play<decltype(t), T>(t, p, c, true, false, std::string("LoserTreeCopy<stable,") + tn + ">"); }
-            { tlx::LoserTreePointer<false, T, Greater<T> > t(p.k, c); play<decltype(t), T>(t, p, c, false, false, std::string("LoserTreePointer<unstable,") + tn + ">"); }
-            { tlx::LoserTreePointer<true, T, Greater<T> > t(p.k, c); play<decltype(t), T>(t, p, c, true, false, std::string("LoserTreePointer<stable,") + tn + ">"); }
+            { tlx::LoserTreeCopy<false, T, Greater<T> > t(p.k, c); rounds<decltype(t), T>(t, p, p2, c, false, false, std::string("LoserTreeCopy<unstable,") + tn + ">"); }
+            { tlx::LoserTreeCopy<true, T, Greater<T> > t(p.k, c); rounds<decltype(t), T>(t, p, p2, c, true, false, std::string("LoserTreeCopy<stable,") + tn + ">"); }
+            { tlx::LoserTreePointer<false, T, Greater<T> > t(p.k, c); rounds<decltype(t), T>(t, p, p2, c, false, false, std::string("LoserTreePointer<unstable,") + tn + ">"); }
+            { tlx::LoserTreePointer<true, T, Greater<T> > t(p.k, c); rounds<decltype(t), T>(t, p, p2, c, true, false, std::string("LoserTreePointer<stable,") + tn + ">"); }
         }
         verif::count("guarded_histories");
     }
     {
         Plan p = make_plan(rng, true);
+        Plan p2s = make_plan(rng, true, p.k, p.descending);
+        p2s.second_round = true;
+        const Plan* p2 = rng.chance(1, 3) ? &p2s : nullptr;
         if (verif::want_sample(4)) verif::sample(std::string("unguarded ") + tn + " " + p.str());
         if (!p.descending) {
             Less<T> c;
             T sent(SENTINEL_LESS);
-            { tlx::LoserTreeCopyUnguarded<false, T, Less<T> > t(p.k, sent, c); play<decltype(t), T>(t, p, c, false, true, std::string("LoserTreeCopyUnguarded<unstable,") + tn + ">"); }
-            { tlx::LoserTreeCopyUnguarded<true, T, Less<T> > t(p.k, sent, c); play<decltype(t), T>(t, p, c, true, true, std::string("LoserTreeCopyUnguarded<stable,") + tn + ">"); }
-            { tlx::LoserTreePointerUnguarded<false, T, Less<T> > t(p.k, sent, c); play<decltype(t), T>(t, p, c, false, true, std::string("LoserTreePointerUnguarded<unstable,") + tn + ">"); }
-            { tlx::LoserTreePointerUnguarded<true, T, Less<T> > t(p.k, sent, c); play<decltype(t), T>(t, p, c, true, true, std::string("LoserTreePointerUnguarded<stable,") + tn + ">"); }
-            { tlx::LoserTreeUnguarded<true, T, Less<T> > t(p.k, sent, c); play<decltype(t), T>(t, p, c, true, true, std::string("LoserTreeUnguarded<stable,") + tn + ">"); }
+            { tlx::LoserTreeCopyUnguarded<false, T, Less<T> > t(p.k, sent, c); rounds<decltype(t), T>(t, p, p2, c, false, true, std::string("LoserTreeCopyUnguarded<unstable,") + tn + ">"); }
+            { tlx::LoserTreeCopyUnguarded<true, T, Less<T> > t(p.k, sent, c); rounds<decltype(t), T>(t, p, p2, c, true, true, std::string("LoserTreeCopyUnguarded<stable,") + tn + ">"); }
+            { tlx::LoserTreePointerUnguarded<false, T, Less<T> > t(p.k, sent, c); rounds<decltype(t), T>(t, p, p2, c, false, true, std::string("LoserTreePointerUnguarded<unstable,") + tn + ">"); }
+            { tlx::LoserTreePointerUnguarded<true, T, Less<T> > t(p.k, sent, c); rounds<decltype(t), T>(t, p, p2, c, true, true, std::string("LoserTreePointerUnguarded<stable,") + tn + ">"); }
+            { tlx::LoserTreeUnguarded<true, T, Less<T> > t(p.k, sent, c); rounds<decltype(t), T>(t, p, p2, c, true, true, std::string("LoserTreeUnguarded<stable,") + tn + ">"); }
         }
         else {
             Greater<T> c;
             T sent(SENTINEL_GREATER);
-            { tlx::LoserTreeCopyUnguarded<false, T, Greater<T> > t(p.k, sent, c); play<decltype(t), T>(t, p, c, false, true, std::string("LoserTreeCopyUnguarded<unstable,") + tn + ">"); }
-            { tlx::LoserTreeCopyUnguarded<true, T, Greater<T> > t(p.k, sent, c); play<decltype(t), T>(t, p, c, true, true, std::string("LoserTreeCopyUnguarded<stable,") + tn + ">"); }
-            { tlx::LoserTreePointerUnguarded<false, T, Greater<T> > t(p.k, sent, c); play<decltype(t), T>(t, p, c, false, true, std::string("LoserTreePointerUnguarded<unstable,") + tn + ">"); }
-            { tlx::LoserTreePointerUnguarded<true, T, Greater<T> > t(p.k, sent, c); play<decltype(t), T>(t, p, c, true, true, std::string("LoserTreePointerUnguarded<stable,") + tn + ">"); }
+            { tlx::LoserTreeCopyUnguarded<false, T, Greater<T> > t(p.k, sent, c); rounds<decltype(t), T>(t, p, p2, c, false, true, std::string("LoserTreeCopyUnguarded<unstable,") + tn + ">"); }
+            { tlx::LoserTreeCopyUnguarded<true, T, Greater<T> > t(p.k, sent, c); rounds<decltype(t), T>(t, p, p2, c, true, true, std::string("LoserTreeCopyUnguarded<stable,") + tn + ">"); }
+            { tlx::LoserTreePointerUnguarded<false, T, Greater<T> > t(p.k, sent, c); rounds<decltype(t), T>(t, p, p2, c, false, true, std::string("LoserTreePointerUnguarded<unstable,") + tn + ">"); }
+            { tlx::LoserTreePointerUnguarded<true, T, Greater<T> > t(p.k, sent, c); rounds<decltype(t), T>(t, p, p2, c, true, true, std::string("LoserTreePointerUnguarded<stable,") + tn + ">"); }
         }
         verif::count("unguarded_histories");
     }
